@@ -3,12 +3,45 @@ Reference model for C17 (attribute container, JSON form, merge_attributes), writ
 statement.  Does not import gffutils.
 
 Value forms used in cases:  ["scalar", "text"] | ["list", [..]] | ["tuple", [..]]
+and the same given as instances of SUBCLASSES of the three types (what loaders / typed wrappers hand over):
+["substr", "text"] = Name(str) | ["sublist", [..]] = TagList(list) | ["subtuple", [..]] = TagTuple(tuple) |
+["ntuple", [..]] = a namedtuple of strings
 """
 import math
 import re
 
 # what everybody calls a number: optional sign, ASCII digits, optional fraction, optional exponent
 STRICT_NUMBER = re.compile(r"[+-]?(?:[0-9]+(?:\.[0-9]*)?|\.[0-9]+)(?:[eE][+-]?[0-9]+)?\Z")
+
+
+class Name(str):
+    """A string that is an instance of a subclass of str."""
+
+
+class TagList(list):
+    """A list that is an instance of a subclass of list."""
+
+
+class TagTuple(tuple):
+    """A tuple that is an instance of a plain subclass of tuple."""
+
+
+_NTUPLES = {}
+
+
+def ntuple(values):
+    """A namedtuple (subclass of tuple) holding the values, fields f0, f1, ..."""
+    import collections
+
+    n = len(values)
+    if n not in _NTUPLES:
+        _NTUPLES[n] = collections.namedtuple("Values%d" % n, ["f%d" % i for i in range(n)])
+    return _NTUPLES[n](*values)
+
+
+SCALAR_FORMS = ("scalar", "substr")
+TUPLE_FORMS = ("tuple", "subtuple", "ntuple")
+SUBCLASS_FORMS = ("substr", "sublist", "subtuple", "ntuple")
 
 
 def build(form):
@@ -20,13 +53,22 @@ def build(form):
         return list(val)
     if kind == "tuple":
         return tuple(val)
+    if kind == "substr":
+        return Name(val)
+    if kind == "sublist":
+        return TagList(val)
+    if kind == "subtuple":
+        return TagTuple(val)
+    if kind == "ntuple":
+        return ntuple(val)
     raise ValueError(kind)
 
 
 def expected_sequence(form):
-    """Statement: values are always sequences of strings; a scalar is wrapped into a one-item list."""
+    """Statement: values are always sequences of strings; a scalar is wrapped into a one-item list; a sequence of
+    strings (of whatever list / tuple type) is that sequence of strings."""
     kind, val = form
-    return [val] if kind == "scalar" else list(val)
+    return [val] if kind in SCALAR_FORMS else list(val)
 
 
 def is_sequence_of_str(v):
@@ -78,6 +120,21 @@ def union(a_pairs, b_pairs):
     for pairs in (a_pairs, b_pairs):
         for k, v in pairs:
             out.setdefault(k, set()).update(values_of(v))
+    return out
+
+
+def merge_partner(pairs):
+    """A second argument for merge_attributes derived from a mapping [[key, [values]]]: its first key with the first of
+    its values again plus one more value, and one key of its own."""
+    out = []
+    if pairs:
+        k, v = pairs[0]
+        out.append([k, list(v[:1]) + ["merged-in"]])
+    used = set(k for k, _ in pairs)
+    new = "merged_only"
+    while new in used:
+        new += "_"
+    out.append([new, ["m2", "m1", "m2"]])
     return out
 
 
